@@ -39,8 +39,21 @@ class TableCacheWorld:
         self._foreign = None
         self.foreign_info = None
         self.runs_done = 0
+        # overlap groups: three objects with different settings alive at once (constructed first, run later)
+        rg = core.stream(20201, "tablecache-overlaps")
+        norm = [i for i in self.small if self.W[i]["flags"].get("normalize_names")]
+        strict = [i for i in self.small if self.W[i]["flags"].get("silent") is False]
+        regex = [i for i in self.small if "input.regex" in self.W[i]["ddl"]]
+        plain = [i for i in self.small if not self.W[i]["flags"]]
+        self.overlap_groups = []
+        for _ in range(6):
+            g = [rg.choice(norm or plain), rg.choice(plain), rg.choice(regex or strict or plain)]
+            rg.shuffle(g)
+            self.overlap_groups.append(g)
         # baseline under a valid cache (fresh interpreter)
-        r = self._incarnate(list(range(len(self.W))), False, os.environ.get("PYTHONHASHSEED", "0"))
+        r = self._incarnate(list(range(len(self.W))), False, os.environ.get("PYTHONHASHSEED", "0"),
+                            overlaps=list(range(len(self.overlap_groups))))
+        self.overlap_base = r.get("overlap_digests") or []
         if r.get("import_exc") or r.get("ctor_exc") or r.get("rewritten"):
             raise RuntimeError("baseline incarnation under a valid cache misbehaved: %s" % {k: r.get(k) for k in ("import_exc", "ctor_exc", "rewritten")})
         self.baseline = r["digests"]
@@ -119,11 +132,13 @@ class TableCacheWorld:
         with open(self.pt, "w") as f:
             f.write(new)
 
-    def _incarnate(self, idxs, write_fault, hashseed, want=None, pyflags=(), force_optimize=False, crash_at=None, subclass=None):
+    def _incarnate(self, idxs, write_fault, hashseed, want=None, pyflags=(), force_optimize=False, crash_at=None, subclass=None,
+                   overlaps=()):
         shutil.rmtree(os.path.join(self.pkg, "__pycache__"), ignore_errors=True)
         job = {"items": [self.W[i] for i in idxs], "write_fault": write_fault, "want_outcomes": want or [],
                "force_optimize": force_optimize, "crash_at": crash_at, "subclass": subclass,
-               "reference_table": None if (force_optimize or crash_at) else self.valid_file}
+               "reference_table": None if (force_optimize or crash_at) else self.valid_file,
+               "overlaps": [[self.W[i] for i in self.overlap_groups[g]] for g in overlaps]}
         r = subprocess.run([core.PY] + list(pyflags) + [os.path.join(core.HERE, "incarnation.py"), self.tree], input=json.dumps(job),
                            stdout=subprocess.PIPE, stderr=subprocess.DEVNULL, text=True, timeout=900,
                            env=core.worker_env(hashseed), cwd=self.workroot)
@@ -186,8 +201,11 @@ class TableCacheWorld:
             eff = inc["state"] if inc["state"] != "keep" else "keep(" + prev + ")"
             valid_before = self._cache_valid_now()
             before_files = set(os.listdir(self.pkg))
+            ov = [] if inc.get("crash_at") else [(i + len(inc["items"])) % len(self.overlap_groups), (i + 3 + inc["items"][0]) % len(self.overlap_groups)]
+            if inc["write_fault"]:
+                ov = ov[:1]           # every constructor regenerates there (0.5 s each)
             r = self._incarnate(inc["items"], inc["write_fault"], inc.get("hashseed", 0), pyflags=inc.get("pyflags") or (),
-                                crash_at=inc.get("crash_at"))
+                                crash_at=inc.get("crash_at"), overlaps=ov)
             stats["incarnations"] += 1
             if inc.get("crash_at"):
                 stats["crash_armed"] += 1
@@ -229,6 +247,17 @@ class TableCacheWorld:
                     violations.append({"oracle": "tables_in_use_differ", "incarnation": i, "state": eff, "write_fault": inc["write_fault"],
                                        "observed": r["tables_in_use"],
                                        "expected": "after parsing its batch in one process, a new parser still runs with the tables of the declared grammar"})
+                    break
+            if ov and r.get("overlap_digests") is not None:
+                stats["overlap_groups_checked"] += len(ov)
+                wrong = [g for g, d in zip(ov, r["overlap_digests"]) if g < len(self.overlap_base) and d != self.overlap_base[g]]
+                if wrong:
+                    g = wrong[0]
+                    violations.append({"oracle": "overlapping_objects_differ", "incarnation": i, "state": eff, "write_fault": inc["write_fault"],
+                                       "group_items": self.overlap_groups[g],
+                                       "flags": [self.W[x]["flags"] for x in self.overlap_groups[g]],
+                                       "expected": "three objects constructed first and run later return what they return under a valid cache",
+                                       "observed": "outcomes differ from the valid-cache run of the same little history"})
                     break
             bad = [n for n, (idx, d) in enumerate(zip(inc["items"], r["digests"])) if self.baseline[idx] != d]
             stats["outcomes_compared"] += len(r["digests"])
